@@ -134,8 +134,17 @@ def call_public(ctx, I, dotted, *args, **kw):
     explore = kw.pop("__explore__", True)
     saved = _copy_args(args), _copy_args(kw)
     g0 = len(I.guards)
+    t0_ = len(I.trace)
     try:
         out = I.call(f, tuple(args), kw)
+        arg_ids = {id(a) for a in list(args) + list(kw.values()) if isinstance(a, np.ndarray)}
+        inherited = [e for e in I.trace[t0_:] if e.kind == "dtype-from" and e.data and e.data[0] in arg_ids]
+        if inherited:
+            rule_d = f"{ctx.prop}.dtype"
+            if rule_d not in ctx.rules_doc:
+                ctx.rule(rule_d, "a public numeric function does not allocate a result buffer with the element type of an argument array (`dtype=x.dtype`, "
+                                 "`zeros_like(x)`): for an integer-typed argument every non-integral result stored in it is silently truncated")
+            ctx.ob(rule_d, dotted.split(".")[-1], False, f"{len(inherited)} buffer(s) take their element type from an argument (first at {inherited[0].loc})", inherited[0].loc or defloc(ctx, dotted))
         if explore and (ctx.prop, dotted, keyof(saved[0])) not in _EXPLORED:
             _EXPLORED.add((ctx.prop, dotted, keyof(saved[0])))
             rule = f"{ctx.prop}.exit-paths"
@@ -443,6 +452,18 @@ def guard_substitution(g):
     return out
 
 
+def guard_substitutions(g):
+    """A disjunction holds on the union of the regions of its disjuncts: one substitution per disjunct that says something about input
+    symbols (each region is judged on its own).  Anything else: the single substitution of guard_substitution (possibly empty)."""
+    from ..values import Guard
+    t = g.astuple() if isinstance(g, Guard) else g
+    if isinstance(t, tuple) and len(t) > 2 and t[0] == "G" and t[1] == "or":
+        subs = [guard_substitution(x) for x in t[2:]]
+        return [s_ for s_ in subs if s_]
+    one = guard_substitution(g)
+    return [one] if one else []
+
+
 def exits_agree(ctx, rule, construct, I, g0, ref, loc, what="value returned early", cases=None):
     """Every data-dependent early return recorded by interpreter I since guard index g0 must equal the reference the generic path is held
     to, on the region where it is taken: both are compared after substituting what the exit condition says about the inputs.  Exits whose
@@ -513,7 +534,7 @@ def explore_exits(ctx, rule, construct, generic, g0, new_interp, call, ref, loc,
         g_, outcome_, _, _ = generic.guards[gi]
         if outcome_[0] == "raise" or (skip and gl0 in skip):
             continue
-        if guard_substitution(g_):
+        if guard_substitutions(g_):
             todo.append((gl0, occ))
         else:
             ctx.observe(f"{construct}: early exit at {gl0} under {short(g_, 80)} is not judged by {rule} (its condition is not an equality/tolerance on inputs)")
@@ -533,36 +554,47 @@ def explore_exits(ctx, rule, construct, generic, g0, new_interp, call, ref, loc,
         if Ik.forced is None:
             continue
         g, gl, fn = Ik.forced
-        sub = guard_substitution(g)
-        if not sub:
+        subs = guard_substitutions(g)
+        if not subs:
             continue
         outc = _flat_cells(outk)
-        tag = f"{construct}:path through the early exit at {gl}"
-        judged += 1
         if len(outc) != len(refc):
-            ctx.ob(rule, tag, False, f"{what} has {len(outc)} cells on this path, {len(refc)} on the generic path", gl)
+            ctx.ob(rule, f"{construct}:path through the early exit at {gl}", False, f"{what} has {len(outc)} cells on this path, {len(refc)} on the generic path", gl)
             continue
+        for si, sub in enumerate(subs):
+            tag = f"{construct}:path through the early exit at {gl}" + (f" (region {si + 1} of {len(subs)})" if len(subs) > 1 else "")
+            judged += 1
 
-        def f(outc=outc, sub=sub):
-            for extra in (cases(sub) if cases is not None else [{}]):
-                for i, (x, y) in enumerate(zip(outc, refc)):
-                    if isinstance(x, Opaque) or isinstance(y, Opaque):
-                        return "inconclusive", f"opaque cell {i}"
+            def f(outc=outc, sub=sub):
+                for extra in (cases(sub) if cases is not None else [{}]):
+                    # a region on which the reference itself is undefined (a division by zero after the substitution: a singular point of
+                    # the function) lies outside the domain: nothing is required of the exit there
                     try:
-                        x2, y2 = alg.subst(lift(x), sub), alg.subst(lift(y), sub)
-                        if extra:
-                            x2, y2 = alg.subst(x2, extra), alg.subst(y2, extra)
+                        for y in refc:
+                            if not isinstance(y, Opaque):
+                                y2 = alg.subst(lift(y), sub)
+                                if extra:
+                                    alg.subst(y2, extra)
                     except ZeroDivisionError:
-                        continue          # the reference itself is undefined on this region (0/0): nothing to compare
-                    verdict, info = alg.decide(x2, y2)
-                    if verdict == "differ":
-                        where = {**sub, **extra}
-                        return False, (f"{what}, cell {i}: {short(x2)} != {short(y2)} required on the region of the exit "
-                                       f"({', '.join(short(E.atom(k_), 14) + ' = ' + short(v_, 12) for k_, v_ in list(where.items())[:9])}; witness {info})")
-                    if verdict != "equal":
-                        return "inconclusive", f"cell {i}: {info}"
-            return True, ""
-        ctx.check(rule, tag, f, gl)
+                        continue
+                    for i, (x, y) in enumerate(zip(outc, refc)):
+                        if isinstance(x, Opaque) or isinstance(y, Opaque):
+                            return "inconclusive", f"opaque cell {i}"
+                        try:
+                            x2, y2 = alg.subst(lift(x), sub), alg.subst(lift(y), sub)
+                            if extra:
+                                x2, y2 = alg.subst(x2, extra), alg.subst(y2, extra)
+                        except ZeroDivisionError:
+                            continue
+                        verdict, info = alg.decide(x2, y2)
+                        if verdict == "differ":
+                            where = {**sub, **extra}
+                            return False, (f"{what}, cell {i}: {short(x2)} != {short(y2)} required on the region of the exit "
+                                           f"({', '.join(short(E.atom(k_), 14) + ' = ' + short(v_, 12) for k_, v_ in list(where.items())[:9])}; witness {info})")
+                        if verdict != "equal":
+                            return "inconclusive", f"cell {i}: {info}"
+                return True, ""
+            ctx.check(rule, tag, f, gl)
     return judged
 
 
